@@ -1907,12 +1907,23 @@ func (up4 *UP4) sendDelete(deleted PacketForwardingRules, remaining PacketForwar
 	}
 
 	for _, p := range deleted.pdrs {
-		// uplink PDRs of the session look the UE address up as long as a downlink PDR remains
-		if sharesSessionsEntry(p, remaining.pdrs) {
+		// the PDRs of the session that remain look the UE address up: the uplink ones need it for the
+		// keys of their entries, also after the last downlink PDR has been removed
+		if len(remaining.pdrs) > 0 {
 			continue
 		}
 
 		up4.removeUeAddrAndFSEIDMappings(p)
+	}
+
+	// an uplink PDR does not carry the UE address: when the last rules of the session are uplink
+	// ones, the mapping goes with them
+	if len(remaining.pdrs) == 0 && len(deleted.pdrs) > 0 {
+		fseid := deleted.pdrs[0].fseID
+		if ueAddr, exists := up4.fseidToUEAddr[fseid]; exists {
+			delete(up4.ueAddrToFSEID, ueAddr)
+			delete(up4.fseidToUEAddr, fseid)
+		}
 	}
 
 	// The counter cells are recorded with the PDRs only: they are released last, when nothing can
